@@ -33,7 +33,7 @@ let merge_of mask : elem -> elem -> elem = fun src dst ->
 let op_of = function "plus" | "uplus" -> C07_Plus | "mult" -> C07_Mult | "min" -> C07_Min | "max" -> C07_Max | "xor" -> C07_Xor
   | "maxsum" -> C07_MaxSum | "cmult" -> C07_CMult | s -> failwith ("fn " ^ s)
 let fun_of fn ty : elem -> elem -> elem =
-  let op = if fn = "mult" && ty = "cdouble" then C07_CMult else op_of fn in
+  let op = if fn = "mult" && List.mem ty ["cdouble"; "cfloat"; "cldouble"] then C07_CMult else op_of fn in
   fun a b -> List.map (fun z -> string_of_int (int_of_z z))
       (c07_apply_op op (List.map (fun s -> z_of_int (int_of_string s)) a) (List.map (fun s -> z_of_int (int_of_string s)) b))
 
@@ -96,7 +96,7 @@ let coll t =
   let nroot = nat_of_int root and nlen = nat_of_int len in
   let f () = fun_of fn ty in
   (* sum/prod/min/max on an intrinsic element type: the MPI op the SOURCE's ComposeMPIOp table selects (c07_intrinsic_reduce) *)
-  let intrinsic = List.mem ty ["int"; "long"; "uchar"; "char"; "short"; "ulong"; "float"; "double"; "ldouble"] in
+  let intrinsic = List.mem ty ["int"; "long"; "uchar"; "char"; "short"; "ulong"; "float"; "double"; "ldouble"; "uint"; "ushort"] in
   let builtin i : elem -> elem -> elem = fun a b ->
     List.map2 (fun x y -> string_of_int (int_of_z (c07_intrinsic_reduce (nat_of_int i) (z_of_int (int_of_string x)) (z_of_int (int_of_string y))))) a b in
   let named fn i = if intrinsic then builtin i else fun_of fn ty in
@@ -134,6 +134,7 @@ let coll t =
       | _ -> None, None
     else begin
       (* sequential stand-in: P = 1; the spec is the routing / fold at P = 1 *)
+      let ins = if fn = "alias" then outs else ins in      (* exact aliasing: the send buffer is the receive buffer *)
       let i0 = List.hd ins and o0 = List.hd outs in
       let one = function Some b -> Some [b] | None -> None in
       let d0 = match displs with d :: _ -> d | [] -> 0 and l0 = match lens with l :: _ -> l | [] -> 0 in
@@ -175,6 +176,27 @@ let p2p t =
       let m = c07_rrecv merge dflt tsize sent pre in
       (* spec: exactly the sender's sequence (length and values) *)
       sh m, "-;" ^ show_buf (List.mapi (fun i x -> merge x (onto i)) sent)
+  | "rrecv_twice" ->
+      let rec take k l = if k = 0 then [] else match l with [] -> [] | x :: r -> x :: take (k - 1) r in
+      let half = take (List.length sent / 2) sent in
+      (match c07_rrecv merge dflt tsize sent pre with
+       | None -> "-;ERR", "-;ERR"
+       | Some r1 -> (match c07_rrecv merge dflt tsize half r1 with
+           | None -> "-;ERR", "-;ERR"
+           | Some r2 ->
+               let s1 = List.mapi (fun i x -> merge x (onto i)) sent in
+               let s2 = List.mapi (fun i x -> merge x (List.nth s1 i)) half in
+               "-;" ^ show_buf r1 ^ "/" ^ show_buf r2, "-;" ^ show_buf s1 ^ "/" ^ show_buf s2))
+  | "rrecv_status" ->
+      let m = c07_rrecv merge dflt tsize sent pre in
+      let tail = Printf.sprintf "/src=0,tag=1,count=%d" (List.length sent) in
+      (match m with Some b -> "-;" ^ show_buf b ^ tail | None -> "-;ERR"), "-;" ^ show_buf (List.mapi (fun i x -> merge x (onto i)) sent) ^ tail
+  | "recv_status" ->
+      let m = c07_recv merge sent pre in
+      let rec ov s d = match s, d with [], d -> d | x :: s', y :: d' -> merge x y :: ov s' d' | _, [] -> [] in
+      let tail = Printf.sprintf "/src=0,tag=1,count=%d" (List.length sent) in
+      (match m with Some b -> "-;" ^ show_buf b ^ tail | None -> "-;ERR"), "-;" ^ show_buf (ov sent pre) ^ tail
+  | "irecv0" -> "-;ParallelError", "-;ParallelError"
   | "recv" | "isend_irecv" ->
       let m = c07_recv merge sent pre in
       let rec ov s d = match s, d with [], d -> d | x :: s', y :: d' -> merge x y :: ov s' d' | _, [] -> [] in
@@ -281,6 +303,20 @@ let pks t =
           (* send: the whole buffer travels; rrecv(MPIPack(comm)) resizes to the message: cursor 0 *)
           hop := true; cur := r1; pk := c07_pk_seek !pk O;
           Buffer.add_string !cur ("/X" ^ hexof !pk.c07_pk_buf ^ "," ^ st !pk); Buffer.add_string sp "/-"
+      | ["n"; n] -> pk := c07_pkn_resize c07_pk_empty (nat_of_int (int_of_string n));      (* MPIPack(comm, size) *)
+          Buffer.add_string !cur ("/Z" ^ hexof !pk.c07_pk_buf ^ "," ^ st !pk); Buffer.add_string sp "/-"
+      | ["m"] -> Buffer.add_string !cur ("/Z" ^ hexof !pk.c07_pk_buf ^ "," ^ st !pk); Buffer.add_string sp "/-"   (* moves keep everything *)
+      | ["q"; h] ->      (* a pack as payload: dynamic item of the inner buffer's bytes *)
+          let els = List.map (fun b -> [b]) (unhex h) in
+          let pt = { c07_pt_dynamic = true; c07_pt_elem = [S O]; c07_pt_count = S O } in
+          Buffer.add_string sp ("/B" ^ hexof (c07_pkn_item_bytes pt els));
+          pk := c07_pkn_write !pk pt els;
+          Buffer.add_string !cur ("/B" ^ hexof !pk.c07_pk_buf ^ "," ^ st !pk)
+      | ["u"; _] ->
+          Buffer.add_string sp "/-";
+          (match c07_pkn_read !pk { c07_pt_dynamic = true; c07_pt_elem = [S O]; c07_pt_count = S O } with
+           | None -> Buffer.add_string !cur "/RERR"
+           | Some (els, pk') -> pk := pk'; Buffer.add_string !cur ("/R" ^ hexof (List.concat els) ^ "," ^ st !pk))
       | ["z"; n] -> pk := c07_pkn_resize !pk (nat_of_int (int_of_string n));
           Buffer.add_string !cur ("/Z" ^ hexof !pk.c07_pk_buf ^ "," ^ st !pk); Buffer.add_string sp "/-"
       | ["g"; n] -> pk := c07_pkn_enlarge !pk (nat_of_int (int_of_string n));
@@ -318,6 +354,9 @@ let () =
   (try while true do
     let line = input_line ic in
     let t = Array.of_list (List.filter (fun x -> x <> "") (split ' ' (String.trim line))) in
+    (* @dup / @rev / @self: which communicator the impl uses; the model is indexed by the rank IN that communicator, so nothing changes
+       (@self: the check compares every rank with the one-process result) *)
+    let t = if Array.length t > 0 && String.length t.(0) > 0 && t.(0).[0] = '@' then Array.sub t 1 (Array.length t - 1) else t in
     let model, spec =
       try (match t.(0) with
         | "coll" -> coll t
